@@ -98,8 +98,18 @@ impl WorkerMonitor {
     /// Make a request.  Can be called by a mutator to request the workers to work towards the
     /// given `goal`.
     pub fn make_request(&self, goal: WorkerGoal) {
+        #[cfg(mmtk_verif)]
+        crate::verif::sync_point("make_request.before_lock", 0);
         let mut guard = self.sync.lock().unwrap();
         let newly_requested = guard.goals.set_request(goal);
+        #[cfg(mmtk_verif)]
+        crate::verif::emit(|| {
+            format!(
+                "\"ev\":\"MakeRequest\",\"goal\":\"{}\",\"newly\":{}",
+                verif_goal_name(Some(goal)),
+                newly_requested
+            )
+        });
         if newly_requested {
             self.notify_work_available(false);
         }
@@ -108,6 +118,8 @@ impl WorkerMonitor {
     /// Wake up workers when more work packets are made available for workers,
     /// or a mutator has requested the GC workers to schedule a GC.
     pub fn notify_work_available(&self, all: bool) {
+        #[cfg(mmtk_verif)]
+        crate::verif::emit(|| format!("\"ev\":\"Notify\",\"all\":{}", all));
         if all {
             self.workers_have_anything_to_do.notify_all();
         } else {
@@ -135,7 +147,16 @@ impl WorkerMonitor {
         let mut sync = self.sync.lock().unwrap();
 
         // Park this worker
+        #[cfg(mmtk_verif)]
+        crate::verif::sync_point("park.locked", ordinal);
         let all_parked = sync.parker.inc_parked_workers();
+        #[cfg(mmtk_verif)]
+        crate::verif::emit(|| {
+            format!(
+                "\"ev\":\"Park\",\"w\":{},\"parked\":{},\"all\":{}",
+                ordinal, sync.parker.parked_workers, all_parked
+            )
+        });
         trace!(
             "Worker {} parked.  parked/total: {}/{}.  All parked: {}",
             ordinal,
@@ -149,6 +170,20 @@ impl WorkerMonitor {
         if all_parked {
             trace!("Worker {} is the last worker parked.", ordinal);
             let result = on_last_parked(&mut sync.goals);
+            #[cfg(mmtk_verif)]
+            crate::verif::emit(|| {
+                format!(
+                    "\"ev\":\"LastParked\",\"w\":{},\"result\":\"{}\",\"goal\":\"{}\",\"req\":{}",
+                    ordinal,
+                    match result {
+                        LastParkedResult::ParkSelf => "ParkSelf",
+                        LastParkedResult::WakeSelf => "WakeSelf",
+                        LastParkedResult::WakeAll => "WakeAll",
+                    },
+                    verif_goal_name(sync.goals.current()),
+                    verif_requests(&sync.goals)
+                )
+            });
             match result {
                 LastParkedResult::ParkSelf => {
                     should_wait = true;
@@ -223,6 +258,18 @@ impl WorkerMonitor {
 
         // Unpark this worker.
         sync.parker.dec_parked_workers();
+        #[cfg(mmtk_verif)]
+        crate::verif::emit(|| {
+            format!(
+                "\"ev\":\"Unpark\",\"w\":{},\"parked\":{},\"exit\":{}",
+                ordinal,
+                sync.parker.parked_workers,
+                matches!(
+                    sync.goals.current(),
+                    Some(WorkerGoal::Shutdown | WorkerGoal::StopForFork)
+                )
+            )
+        });
         trace!(
             "Worker {} unparked.  parked/total: {}/{}.",
             ordinal,
@@ -243,9 +290,36 @@ impl WorkerMonitor {
 
     /// Called when all workers have exited.
     pub fn on_all_workers_exited(&self) {
+        #[cfg(mmtk_verif)]
+        crate::verif::sync_point("all_exited.before_try_lock", 0);
         let mut sync = self.sync.try_lock().unwrap();
         sync.goals.on_current_goal_completed();
+        #[cfg(mmtk_verif)]
+        crate::verif::emit(|| "\"ev\":\"AllExited\"".to_string());
     }
+}
+
+/// Verification hook: the name of a goal as it appears in events.
+#[cfg(mmtk_verif)]
+pub(crate) fn verif_goal_name(goal: Option<WorkerGoal>) -> &'static str {
+    match goal {
+        None => "None",
+        Some(WorkerGoal::Gc) => "Gc",
+        Some(WorkerGoal::Shutdown) => "Shutdown",
+        Some(WorkerGoal::StopForFork) => "Fork",
+    }
+}
+
+/// Verification hook: the pending requests as a JSON array of goal names.
+#[cfg(mmtk_verif)]
+pub(crate) fn verif_requests(goals: &WorkerGoals) -> String {
+    let mut v = vec![];
+    for g in [WorkerGoal::Gc, WorkerGoal::Shutdown, WorkerGoal::StopForFork] {
+        if goals.debug_is_requested(g) {
+            v.push(format!("\"{}\"", verif_goal_name(Some(g))));
+        }
+    }
+    format!("[{}]", v.join(","))
 }
 
 #[cfg(test)]
